@@ -46,6 +46,13 @@ T = {
  "C20-m1": ("javascript.go: argument cleanup skipped when the script throws (rebased)", "a throwing call with argument X, then a call on the recycled VM that references X"),
  "C20-m2": ("javascript.go: node-JSON cache keyed by node address instead of ID (rebased)", "a node released and re-acquired between two javascript_with_context calls"),
  # round 2 (a second, independent set of sub-agents, after every round-1 change was detected)
+ "C01-r2m1": ("transform.go: terminal latch driven by a 'resumable' flag that the fatal / EOF path forgets to clear", "a terminal result on the Read immediately after a continuable failure, and a reader that does not repeat itself after its terminal result"),
+ "C01-r2m2": ("ingester.go: fast path quoting a plain-string FINAL_OUTPUT with strconv.Quote", "FINAL_OUTPUT evaluating to a scalar string that contains an invalid UTF-8 byte, a control character / DEL or a non-printable rune"),
+ "C03-r2m1": ("invokeCustomFunc.go getFuncArgType: index clamp only for variadic functions", "a non-variadic custom_func called with one argument too many whose surplus argument evaluates to nil on a record (panic)"),
+ "C03-r2m2": ("old csv reader: headerChecked set only after checkHeader succeeds", "csv with a delimiter encoding/csv rejects, data_row_index >= 2 and no header_row_index: every Read repeats the same continuable error"),
+ "C04-r2m2": ("idr/jsonreader.go: rejected array elements that are containers are emptied but left linked", "filtered target whose candidates are container elements spread over two or more arrays, a rejected one in an earlier array"),
+ "C07-r2m1": ("edi/reader.go rawSegToNode: element scan resumes at the previous declaration's match", "component delimiter configured and two components of one element declared with the higher component_index first"),
+ "C07-r2m2": ("edi/reader2.go: ignore_crlf strips CR/LF only at the beginning of each segment token", "ignore_crlf and a CR/LF that is not directly behind a segment delimiter"),
  "C02-r2m1": ("value.go normalizeAndSaveValue: a declared type makes keep_empty_or_null forget a null result", "a field with both type and keep_empty_or_null whose value is null / absent"),
  "C02-r2m2": ("invokeCustomFunc.go: ignore_error hands back the failed function's return value instead of null", "custom_func with ignore_error whose function fails while returning a non-nil first value, with keep_empty_or_null"),
  "C05-r2m1": ("flatfile hierarchyReader.go: EOF unwind loops recNext before looking at the target", "last target instance closed by end of input AND a later minimum in the same unwind unmet (csv2 / fixedlength2)"),
